@@ -62,7 +62,7 @@ def run(tier):
         env2 = dict(env); env2.update({'VERIF_ALPHA': 'reduced'})
         lvl2 = vlib.run_workers(rtbin, 'TestVerifC01', vlib.NCPU, env=env2, per_worker_env=vlib.shard_work(work, vlib.NCPU, 'c01-work'))
     allr = ra + lvl2
-    unstable = any('identical re-execution' in v.get('sig', '') for r in allr for v in (r.get('violations') or []))
+    unstable = any(('identical re-execution' in v.get('sig', '') or 'leaves a goroutine running' in v.get('sig', '')) for r in allr for v in (r.get('violations') or []))
     for r in allr:
         # (when the baseline itself is unstable -- reported as a violation -- deviating runs cannot line up either)
         if 'HARNESS-NONDETERMINISM' in (r.get('note') or '') and not unstable:
@@ -76,9 +76,15 @@ def run(tier):
         else: bysig[v['sig']] = v
     merged = list(bysig.values())
     new, _ = vlib.classify('C01', merged)
+    goroutines = any('leaves a goroutine running' in v.get('sig', '') for v in merged)
     for v in new[:20]:
         if v.get('prop') != 'C01': continue
         rr = mcdrive.reexecute(rtbin, v, 5, test='TestVerifC01', fresh_each='identical re-execution' in v['sig'])
+        if (not rr['identical'] or not rr['reproduced']) and goroutines and 'goroutine' not in v['sig']:
+            # work that an entry leaves running on another goroutine (reported, and reproduced, as such) makes every
+            # other observation of that history unstable: it is dropped, not taken for a harness problem
+            merged = [x for x in merged if x is not v]
+            continue
         if not rr['identical'] or not rr['reproduced']:
             print('HARNESS-NONDETERMINISM: %s did not reproduce identically: %s' % (v['sig'], rr['runs'])); raise SystemExit(3)
     # glue conformance (real statemachine.go glue vs mirror)
